@@ -39,11 +39,16 @@ MANIFEST = dict(
          'obligation cleared_lumps_are_never_stored_conditionally forbids them on cleared lumps. Writers that store a lump no '
          'view owns (FACEIDS; SM/LazyLumpsSide.v): if on the values parsed from the file each such store puts back what the file '
          'holds, saving with them equals saving without them pointwise, hence lossless; fabricated / zero-padded ids refuted. '
+         'Readers that change cached objects of a view they look at (bmodels strips the model keys of the entities; '
+         'SM/LazyLumpsMut.v): if the change is made only after the reader\'s parse succeeded, the mutated view is looked at by '
+         'reader and writer of the mutating view, no two views change the same view and the writer undoes the change on the '
+         'values of this file, the mutating machine saves exactly like the plain one (simulation over all histories), hence '
+         'lossless; change-before-raise (fix 61823d3) and missing undo refuted. '
          'Container: read (write c) = Some c for every well-formed '
          'container and layout with LZMA as an inverse pair (header, 64-row table in standard and L4D2 field order, revision, '
          'payload placement in write order, game-lump directory with absolute offsets, NUL separators and the dummy entry); '
          'four wf conditions shown necessary. order_consistent bsp_graph, shape_ok bsp_shape, layout_ok bsp_layout, '
-         'bsp_layout = std_layout and 23 further named obligations are re-derived from bsp.py and kernel-checked on every run.',
+         'bsp_layout = std_layout and 24 further named obligations are re-derived from bsp.py and kernel-checked on every run.',
     note='Assumed in the theorems (visible hypotheses): each lump writer inverts its reader on the file\'s lumps (codec_ok, '
          'wr_len_ok: property C11); decompress (compress d) = d (CPython lzma). The container theorem is about the model '
          'Fmt/BspContainer.v, tied to BSP.read/BSP.save by byte-exact correspondence on random containers (not by a translator of '
@@ -54,9 +59,14 @@ MANIFEST = dict(
          'conditionally by the three face writers) is modelled under the visible hypothesis side_ok, whose data half (the ids '
          'written are the bytes of the file) is checked by the oracle only, on FACEIDS lumps that are full, all zero, empty and '
          'shorter than the face array; a FACEIDS lump LONGER than the face array (no compiler writes one) is cut to the face '
-         'count by a look at faces + save (same parsed content, different bytes): outside the inputs searched. Not modelled, '
-         'searched only: VitaminSource-only branches, hidden mutation of the ents view by the '
-         'bmodels reader, zipfile. A save that raises because a writer looks at an unparsable view of a malformed file produces no '
+         'count by a look at faces + save (same parsed content, different bytes): outside the inputs searched. Hidden mutations: '
+         'the translator lists the (reader, view) pairs by a taint analysis (may-analysis of direct attribute/item stores and '
+         'mutating method calls, followed through BSP methods; changes made inside other classes\' methods are not seen) and '
+         'the check pins the list; for (bmodels, ents) the graph hypotheses of the theorem are obligations, "only after the '
+         'parse succeeded" and "the writer undoes it" are searched (malformed input bmodel_ref, oracle); the texinfo/hammer_id '
+         'fields the face readers set on the shared orig_faces objects are searched only. Not modelled, '
+         'searched only: VitaminSource-only branches, '
+         'zipfile. A save that raises because a writer looks at an unparsable view of a malformed file produces no '
          'file and is not counted as a violation. Trusted: Coq kernel + vm_compute, translate/c10_bspgraph.py (may-analysis; its '
          'result must contain every dynamically traced dependency), hand models SM/LazyLumps.v and Fmt/BspContainer.v (tied by '
          'correspondence; SM/LazyLumpsCond.v and SM/LazyLumpsSide.v extend the first and are tied only through the obligations '
@@ -68,6 +78,8 @@ MANIFEST = dict(
 # order, puts it back; since fix 61823d3 only after every reference was resolved, so a look that raises leaves them alone);
 # faces / hdr_faces set texinfo and hammer_id of the orig_faces objects (the ORIGINALFACES reader ignores both fields)
 REVIEWED_ELEMENT_MUTATIONS = [('bmodels', 'ents'), ('faces', 'orig_faces'), ('hdr_faces', 'orig_faces')]
+# the pairs of the kind "the reader changes, the writer of the same view undoes" (theorem c10_hidden_mutation_lossless)
+RESTORED_ELEMENT_MUTATIONS = [('bmodels', 'ents')]
 IMPORTS = ['SV.SM.LazyLumps', 'SV.SM.LazyLumpsProofs', 'SV.Fmt.BspContainer', 'SV.Gen.BspGraph_gen', 'Coq.Strings.String', 'Coq.Lists.List', 'Coq.Arith.Arith', 'Coq.Bool.Bool']
 VIEWS = ['pakfile', 'ents', 'textures', 'texinfo', 'cubemaps', 'overlays', 'bmodels', 'brushes', 'visleafs',
          'water_leaf_info', 'nodes', 'visibility', 'vertexes', 'surfedges', 'planes', 'faces', 'orig_faces', 'hdr_faces',
@@ -840,6 +852,8 @@ def run(ck: Ck) -> None:
         reviewed = sorted((vpos[a], vpos[b]) for a, b in REVIEWED_ELEMENT_MUTATIONS if a in vpos and b in vpos)
         reviewed_coq = '(' + ' :: '.join([f'({a}, {b})' for a, b in reviewed] + ['nil']) + ')'
         pair_eqb = '(fun p q => Nat.eqb (fst p) (fst q) && Nat.eqb (snd p) (snd q))'
+        restored = sorted((vpos[a], vpos[b]) for a, b in RESTORED_ELEMENT_MUTATIONS if a in vpos and b in vpos)
+        restored_coq = '(' + ' :: '.join([f'({a}, {b})' for a, b in restored] + ['nil']) + ')'
         inst = ck.instance_obligations(IMPORTS, {
             'order_consistent_bsp_graph': 'order_consistent bsp_graph',
             'every_dependency_later_in_rebuild_order': f'forallb (deps_later bsp_graph) (seq 0 ({n}))',
@@ -882,6 +896,11 @@ def run(ck: Ck) -> None:
             'readers_change_objects_of_other_views_only_where_reviewed':
                 f'forallb (fun p => existsb ({pair_eqb} p) {reviewed_coq}) bsp_reader_elem_mutations',
             'writers_change_no_objects_of_other_views': 'match bsp_writer_elem_mutations with nil => true | _ => false end',
+            # graph hypotheses of c10_hidden_mutation_lossless for the restored pairs: the mutated view is looked at by the reader
+            # AND by the writer of the mutating view, and no other reader changes objects of the same view
+            'restored_mutations_are_looked_at_by_reader_and_writer_and_unique':
+                f'forallb (fun p => mem (snd p) (v_rdeps (decl bsp_graph (fst p))) && mem (snd p) (v_wdeps (decl bsp_graph (fst p))) && '
+                f'forallb (fun q => negb (Nat.eqb (snd q) (snd p)) || Nat.eqb (fst q) (fst p)) bsp_reader_elem_mutations) {restored_coq}',
             'readers_only_read_the_views_they_look_at': 'forallb (fun u => Nat.eqb (snd u) 0) bsp_reader_uses',
             'writers_only_read_or_append_to_the_views_they_look_at': 'forallb (fun u => Nat.leb (snd u) 1) bsp_writer_uses',
         })
@@ -1080,6 +1099,7 @@ def run(ck: Ck) -> None:
                    'every_view_in_rebuild_order', 'no_two_views_share_a_main_lump', 'raw_reads_own_or_unowned',
                    'stores_go_to_owned_lumps', 'conditional_stores_only_FACEIDS_unowned', 'stores_outside_the_view_go_to_unowned_lumps',
                    'readers_change_objects_of_other_views_only_where_reviewed', 'writers_change_no_objects_of_other_views',
+                   'restored_mutations_are_looked_at_by_reader_and_writer_and_unique',
                    'cleared_lumps_are_never_stored_conditionally'):
             if inst.get(nm) is False:
                 ck.explain('instance:' + nm)
